@@ -784,12 +784,14 @@ package sarama
 
 //@ func decode(buf, in) props C10
 //@   returns err
+//@   inline_calls
 //@   ensures[all_consumed] err == nil && !isnil(buf) ==> helper.off == len(buf)
 //@   decoder_frame
 //@   nosafety
 
 //@ func versionedDecode(buf, in, version) props C10
 //@   returns err
+//@   inline_calls
 //@   ensures[all_consumed] err == nil && !isnil(buf) ==> helper.off == len(buf)
 //@   decoder_frame
 //@   nosafety
@@ -1435,3 +1437,54 @@ package sarama
 //@   requires forall i :: 0 <= i && i < len(pSet.msgs) ==> idxOf(pSet.msgs, pSet.msgs[i]) == i && pSet.msgs[i].retries >= 0
 //@   ensures[retried_once] block != nil && !bp.parent.conf.Producer.Idempotent && (block.Err == ErrInvalidMessage || block.Err == ErrUnknownTopicOrPartition || block.Err == ErrLeaderNotAvailable || block.Err == ErrNotLeaderForPartition || block.Err == ErrRequestTimedOut || block.Err == ErrNotEnoughReplicas || block.Err == ErrNotEnoughReplicasAfterAppend) ==> forall i :: 0 <= i && i < len(pSet.msgs) ==> pSet.msgs[i].disp >= old(pSet.msgs[i].disp) + 1
 //@   ensures[untouched_otherwise] block == nil || !(block.Err == ErrInvalidMessage || block.Err == ErrUnknownTopicOrPartition || block.Err == ErrLeaderNotAvailable || block.Err == ErrNotLeaderForPartition || block.Err == ErrRequestTimedOut || block.Err == ErrNotEnoughReplicas || block.Err == ErrNotEnoughReplicasAfterAppend) ==> forall i :: 0 <= i && i < len(pSet.msgs) ==> pSet.msgs[i].disp == old(pSet.msgs[i].disp)
+
+// ---------------------------------------------------------------------------------------------
+// broker.go, response_header.go (C14: each call gets its own response or an error; C10: response size cap)
+
+//@ func (r *responseHeader) decode(pd, version) props C10 C14
+//@   returns err
+//@   requires pd.remaining() >= 0
+//@   ensures[state] 0 <= pd.remaining() && pd.remaining() <= old(pd.remaining())
+//@   ensures[size_cap] err == nil ==> 4 < r.length && r.length <= MaxResponseSize
+//@   decoder_frame
+
+//@ func getHeaderLength(headerVersion) props C14
+//@   returns n
+//@   ensures[len] n == 8 || n == 9
+//@   modifies nothing
+
+// sent(ch) counts the values sent on a channel. Every promise taken from b.responses is answered exactly
+// once, on packets or on errors; packets only when the header's correlation id is the promise's and the
+// connection has not failed before; once dead, always dead.
+//@ func (b *Broker) responseReceiver() props C14 C10
+//@   callsite send.packets: requires[id_matches] dead == nil && decodedHeader.correlationID == response.correlationID
+//@   loop 0: iter_ensures[answered_once] sent(response.packets) + sent(response.errors) == it(sent(response.packets)) + it(sent(response.errors)) + 1
+//@   loop 0: iter_ensures[dead_is_sticky] it(dead) != nil ==> dead == it(dead) && sent(response.errors) == it(sent(response.errors)) + 1
+//@   loop 0: iter_ensures[failure_kills] sent(response.errors) > it(sent(response.errors)) ==> dead != nil
+
+// Broker.send: the request is written and its promise enqueued inside one critical section of b.lock (so the
+// wire order is the promise order); the promise carries exactly the correlation id that was written; the id
+// advances by one per successful write and not otherwise.
+//
+// Wire occupancy (ghost): b.queued promises wait in b.responses (capacity MaxOpenRequests-1) and the receive
+// loop holds b.holding (0 or 1) promise whose response it is reading. send writes the request BEFORE it
+// enqueues the promise, so at the write len+holding+1 requests are awaiting a response.
+//@ ghost field Broker.queued int
+//@ ghost field Broker.holding int
+
+//@ func (b *Broker) write(buf) trusted
+//@   returns n, err
+//@   modifies nothing
+
+//@ func (b *Broker) send(rb, promiseResponse, responseHeaderVersion) props C14
+//@   returns promise, err
+//@   requires 0 <= b.queued && b.queued <= b.conf.Net.MaxOpenRequests - 1 && 0 <= b.holding && b.holding <= 1 && b.conf.Net.MaxOpenRequests >= 1
+//@   callsite write: requires[under_lock] lockheld(b.lock)
+//@   callsite write: requires[wire_bound] b.queued + b.holding + 1 <= b.conf.Net.MaxOpenRequests
+//@   callsite send.responses: requires[under_lock] lockheld(b.lock)
+//@   callsite send.responses: requires[id_of_written_request] $value.correlationID == req.correlationID && req.correlationID == old(b.correlationID) && $value.headerVersion == responseHeaderVersion
+//@   ensures[id_advance] err == nil ==> b.correlationID == wrap32(old(b.correlationID) + 1)
+//@   ensures[id_kept_on_failure] err != nil ==> b.correlationID == old(b.correlationID)
+//@   ensures[promise_id] err == nil && promiseResponse ==> promise != nil && promise.correlationID == old(b.correlationID)
+//@   ensures[no_promise] err != nil || !promiseResponse ==> promise == nil
+//@   nosafety
